@@ -101,9 +101,19 @@ func c08Case(c *checker, p *Prog, structured bool, how, known string) {
 	}
 	c.rep.Case(input, impl != "err" || structured)
 	crashed := impl == "diverges" || impl == "gen-diverges"
+	if strings.HasSuffix(known, ":gen") {
+		// the known finding is about the generator only: a compiler that does not return is a violation
+		if impl == "diverges" {
+			known = ""
+		} else {
+			known = strings.TrimSuffix(known, ":gen")
+		}
+	}
 	if crashed {
 		if known != "" {
 			c.knownHit(known, fmt.Sprintf("%s (%s) on %s", impl, detail, how))
+			c.maybeFlush()
+			return // a recorded finding: not compared with the model (whose verdict it contradicts by definition)
 		} else {
 			c.oracle("C08 compiler/generator crashed or hung", input, impl+" ("+detail+")",
 				"compile.Compile / gen.Generate must return a module, output, or an error")
@@ -358,6 +368,23 @@ func cyclePrograms(r *rng.R, k int) []cycleCase {
 			Defs: []*Def{{Kind: 'S', SKind: 's', Name: "Entry", Fields: []*Field{{ID: i64p(1), Name: "v", Req: 'o', Ty: &TExpr{Kind: "i32"}, Dflt: cref("inc." + name("c", r.Intn(n)))}}}}}
 		add(&Prog{Strict: true, Files: []*File{root, {Path: "inc.thrift", Defs: defs}}}, fmt.Sprintf("constants defined as each other through the defaults of their types, len %d, entered at a constant", n), "")
 	}
+	// acyclic typedefs that are referred to twice by the typedef above them: a search (or a code
+	// generator) without a memo visits the last one 2^depth times. The compiler is linear (finding
+	// D85, repaired); the generator is not (known finding D86: helper declarations are rendered,
+	// recursively, before it is known that they exist already) — at depth 24 it does not finish.
+	for _, depth := range []int{6, 12, 24} {
+		var defs []*Def
+		for i := 0; i < depth; i++ {
+			nx := tref(fmt.Sprintf("T%d", i+1))
+			defs = append(defs, &Def{Kind: 'T', Name: fmt.Sprintf("T%d", i), Ty: &TExpr{Kind: "map", A: nx, B: nx}})
+		}
+		defs = append(defs, &Def{Kind: 'T', Name: fmt.Sprintf("T%d", depth), Ty: &TExpr{Kind: "i32"}})
+		known := ""
+		if depth == 24 {
+			known = "D86:gen"
+		}
+		add(oneFile(defs...), fmt.Sprintf("typedefs shared twice per level, depth %d", depth), known)
+	}
 	// deep acyclic structures must be handled without overflowing
 	for _, depth := range []int{50, 400} {
 		t := &TExpr{Kind: "i32"}
@@ -572,5 +599,5 @@ func runC08(c *checker, r *rng.R) {
 		c08Case(c, p, false, "arbitrary bytes", "")
 	}
 	c.flush()
-	c.rep.Rule = "file sets run through compile.Compile + gen.Generate in a child process (20 s timeout, GOMEMLIMIT 1 GiB, ulimit -v 6 GiB, 64 MiB goroutine stack): structurally generated programs with every kind of reference cycle of length 1..k (typedef→typedef also through containers, typedef→struct→typedef, struct→struct, const→const with anonymous / named types and through literals, const↔struct default, service extends, include loop / self include, the include loop carrying a service / constant / typedef cycle across files, typedef cycles with a literal of any kind cast to them, mutually nested struct defaults with a mistyped literal; every one of these also as an included file entered from the includer through a constant / field default / typedef / service, so that the cycle is not entered at a type first), deep acyclic chains (400 levels), invalid references and includes; random valid programs; every go.* annotation with degenerate values (none, empty, underscores, lower case, digits, spaces, quotes, Go keywords) on every annotatable position; token-level mutations of valid IDL; arbitrary bytes. Outcome ∈ {ok, err, diverges (compile crash/timeout), gen-diverges} compared with the model's verdict (the AST of text inputs comes from the real parser); oracle: no crash/timeout. Non-trivial = structured, or accepted by the parser; distinct by input. The shapes of the repaired findings D4 D5 D6 D40 D74 (constant cycles, service cycles, self-referential defaults, constants cast while their types are being linked) are part of the cycle stream and must end in an error."
+	c.rep.Rule = "file sets run through compile.Compile + gen.Generate in a child process (20 s timeout, GOMEMLIMIT 1 GiB, ulimit -v 6 GiB, 64 MiB goroutine stack): structurally generated programs with every kind of reference cycle of length 1..k (typedef→typedef also through containers, typedef→struct→typedef, struct→struct, const→const with anonymous / named types and through literals, const↔struct default, service extends, include loop / self include, the include loop carrying a service / constant / typedef cycle across files, typedef cycles with a literal of any kind cast to them, mutually nested struct defaults with a mistyped literal; every one of these also as an included file entered from the includer through a constant / field default / typedef / service, so that the cycle is not entered at a type first), acyclic typedefs referred to twice per level (depth 6 / 12 / 24: 2^depth paths), deep acyclic chains (400 levels), invalid references and includes; random valid programs; every go.* annotation with degenerate values (none, empty, underscores, lower case, digits, spaces, quotes, Go keywords) on every annotatable position; token-level mutations of valid IDL; arbitrary bytes. Outcome ∈ {ok, err, diverges (compile crash/timeout), gen-diverges} compared with the model's verdict (the AST of text inputs comes from the real parser); oracle: no crash/timeout. Non-trivial = structured, or accepted by the parser; distinct by input. The shapes of the repaired findings D4 D5 D6 D40 D74 (constant cycles, service cycles, self-referential defaults, constants cast while their types are being linked) are part of the cycle stream and must end in an error."
 }
